@@ -1379,6 +1379,8 @@ def fold_substituted_tests(fn: ast.AST, is_method) -> bool:
             def kind(x):
                 if isinstance(x, ast.Constant):
                     return ("const", x.value)
+                if isinstance(x, (ast.Tuple, ast.List, ast.Dict, ast.Set, ast.JoinedStr)):
+                    return ("method", "<display>")   # a display substituted for an optional parameter: an object, never None
                 if isinstance(x, ast.Attribute) and isinstance(x.value, ast.Name) and x.value.id == "self" and is_method(x.attr):
                     return ("method", x.attr)
                 return None
